@@ -106,6 +106,10 @@ def mutants(names, seed, seeded=False):
             elif q.returncode not in (0, 1):
                 print('   %s: check exited %d: %s' % (prop, q.returncode, out[-400:]))
         ok = bool(caught)
+        if m.get('undetected'):
+            print('mutant %-34s %s (recorded as not detected: %s)' % (m['_name'], 'NOW CAUGHT by %s' % caught if ok else 'not detected',
+                                                                       m.get('note', '')[:160]))
+            continue
         print('mutant %-34s %s by %s (expected one of %s) in %.0fs  -- %s'
               % (m['_name'], 'CAUGHT' if ok else 'MISSED', caught or '-', m['expect'], time.time() - t0,
                  m.get('what', '')))
